@@ -54,8 +54,8 @@ def p_mat(s):
     return [] if s == "-" else [p_vec(r) for r in s.split(";")]
 
 
-def close(x, q, tol=TOL, scale=1.0):
-    """implementation float x against exact value q"""
+def close(x, q, tol=TOL, scale=1.0, floor=1.0):
+    """implementation float x against exact value q: |x - q| <= tol * max(floor, |q|, scale)"""
     if q is None:
         return False
     try:
@@ -64,7 +64,22 @@ def close(x, q, tol=TOL, scale=1.0):
         return False
     if math.isnan(x) or math.isinf(x):
         return False
-    return abs(x - float(q)) <= tol * max(1.0, abs(float(q)), scale)
+    return abs(x - float(q)) <= tol * max(floor, abs(float(q)), scale)
+
+
+def pdriver(pid, reqs, jobs=4):
+    """common.driver on up to `jobs` interleaved chunks in parallel (the exact Gauss-Jordan of the
+    model dominates the thorough tier); answers in request order"""
+    if len(reqs) < 200:
+        return common.driver(pid, reqs)
+    from concurrent.futures import ThreadPoolExecutor
+    chunks = [reqs[k::jobs] for k in range(jobs)]
+    with ThreadPoolExecutor(jobs) as ex:
+        outs = list(ex.map(lambda ch: common.driver(pid, ch), chunks))
+    ans = [None] * len(reqs)
+    for k, out in enumerate(outs):
+        ans[k::jobs] = out
+    return ans
 
 
 def quiet(f, *a, **k):
@@ -146,6 +161,7 @@ def random_connected(n, rng, p):
 def draw_res(n, A, rng, kind):
     """symmetric positive resistances on the links; exactly representable as doubles"""
     R = [[Fr(0)] * n for _ in range(n)]
+    pow2_base = rng.randrange(-30, 28)      # one extreme scale per network, ratios <= 8
     for i in range(n):
         for j in range(i):
             if A[i][j]:
@@ -155,40 +171,84 @@ def draw_res(n, A, rng, kind):
                     r = Fr(rng.randrange(1, 11))
                 elif kind == "dyadic":
                     r = Fr(rng.randrange(1, 81), 8)
+                elif kind == "pow2":     # extreme but exact: 1/r is exact in both float widths
+                    r = Fr(2) ** (pow2_base + rng.randrange(0, 4))
                 else:  # wide
                     r = Fr(2) ** rng.randrange(-4, 8) * rng.choice([1, 3, 5])
                 R[i][j] = R[j][i] = r
     return R
 
 
-def to_np(res, kind):
-    if kind in ("unit", "int") and all(v.denominator == 1 for r in res for v in r):
+def to_np(res, kind, dtype="auto"):
+    """the caller's array.  auto: int64 for integral unit/int draws, else float64;
+    float32 only if every value is exactly representable (else float64)"""
+    if dtype == "float32":
+        a = np.array([[float(v) for v in r] for r in res], dtype=np.float32)
+        if all(Fr(float(a[i, j])) == res[i][j] for i in range(len(res)) for j in range(len(res))):
+            return a
+        dtype = "float64"
+    if dtype == "auto" and kind in ("unit", "int") and \
+            all(v.denominator == 1 and abs(v) < 2 ** 62 for r in res for v in r):
         return np.array([[int(v) for v in r] for r in res], dtype=np.int64)
     return np.array([[float(v) for v in r] for r in res], dtype=float)
 
 
 class Case:
-    def __init__(self, n, A, res, kind, tag, adj_from_res=False):
+    def __init__(self, n, A, res, kind, tag, adj_from_res=False, dtype="auto", opts=None):
         self.n, self.A, self.res, self.kind, self.tag = n, A, res, kind, tag
         self.adj_from_res = adj_from_res
+        self.dtype = dtype
+        self.opts = opts or {}          # non-default constructor arguments
+
+    @property
+    def lowprec(self):
+        """float32 caller array: `1./resistances[i, j]` is then a float32 division, so the
+        admittances (and everything derived) carry float32 relative accuracy"""
+        return self.dtype == "float32"
+
+    @property
+    def tol(self):
+        return 3e-6 if self.lowprec else TOL
+
+    def array(self, res=None):
+        return to_np(self.res if res is None else res, self.kind, self.dtype)
+
+    def build_from(self, RN, arr):
+        kw = {}
+        if "silence_level" in self.opts:
+            kw["silence_level"] = self.opts["silence_level"]
+        if self.opts.get("directed"):
+            kw["directed"] = True          # documented as ignored for resistor networks
+        if self.opts.get("grid"):
+            from pyunicorn.core import GeoGrid
+            n = self.n
+            kw["grid"] = quiet(GeoGrid, time_seq=np.arange(3),
+                               lat_seq=np.linspace(-60, 60, n), lon_seq=np.linspace(-170, 170, n),
+                               silence_level=2)
+        if self.opts.get("edge_list"):
+            # ignored by the class (adjacency comes from `adjacency` / the resistances)
+            kw["edge_list"] = [(i, j) for i in range(self.n) for j in range(i) if self.A[i][j]]
+        if not self.adj_from_res:
+            kw["adjacency"] = np.array(self.A, dtype=self.opts.get("adj_dtype", np.int8))
+        return quiet(RN, arr, **kw)
 
     def build(self, RN, res=None):
-        res = self.res if res is None else res
-        arr = to_np(res, self.kind)
-        if self.adj_from_res:
-            return quiet(RN, arr)
-        return quiet(RN, arr, adjacency=np.array(self.A, dtype=np.int8))
+        return self.build_from(RN, self.array(res))
 
     def replay(self, **extra):
         d = {"n": self.n, "adjacency": self.A,
              "resistances": [[enc_fr(v) for v in r] for r in self.res],
+             "resistances_dtype": str(self.array().dtype),
              "construct": "ResNetwork(res)" if self.adj_from_res
-             else "ResNetwork(res, adjacency=A)"}
+             else "ResNetwork(res, adjacency=A)",
+             "constructor_options": {k: (str(v) if k == "adj_dtype" else v)
+                                     for k, v in self.opts.items()}}
         d.update(extra)
         return d
 
     def canon(self):
-        return (self.n, enc_adj(self.A), enc_mat(self.res))
+        return (self.n, enc_adj(self.A), enc_mat(self.res), self.dtype,
+                tuple(sorted((k, str(v)) for k, v in self.opts.items())))
 
 
 def gen_cases(ctx, quick):
@@ -196,8 +256,21 @@ def gen_cases(ctx, quick):
     out = []
 
     def add(n, A, tag, kinds=None):
-        kind = rng.choice(kinds or ["unit", "int", "int", "dyadic", "dyadic", "wide"])
-        c = Case(n, A, draw_res(n, A, rng, kind), kind, tag, adj_from_res=rng.random() < 0.3)
+        kind = rng.choice(kinds or ["unit", "int", "int", "dyadic", "dyadic", "wide", "pow2"])
+        opts = {}
+        if rng.random() < 0.35:
+            if rng.random() < 0.5:
+                opts["silence_level"] = rng.choice([0, 1, 3])
+            if rng.random() < 0.3:
+                opts["directed"] = True
+            if rng.random() < 0.3:
+                opts["grid"] = True
+            if rng.random() < 0.2:
+                opts["edge_list"] = True
+            if rng.random() < 0.3:
+                opts["adj_dtype"] = rng.choice([np.int64, np.uint8, bool, float])
+        c = Case(n, A, draw_res(n, A, rng, kind), kind, tag, adj_from_res=rng.random() < 0.3,
+                 dtype=rng.choice(["auto", "auto", "float64", "float32"]), opts=opts)
         out.append(c)
 
     for n in (2, 3, 4):
@@ -336,34 +409,41 @@ def f32_bound(adm, R):
     return 1e-4 + 8 * F32 * n * ma * mr
 
 
-def diff_obs(o, m, n):
-    """names of the observables where implementation `o` and exact values `m` differ"""
+def diff_obs(o, m, n, tol=TOL):
+    """names of the observables where implementation `o` and exact values `m` differ.
+    `tol`: relative accuracy of the float64 pipeline (looser for float32 caller arrays).  The
+    pinv pipeline (R, ER, average, diameter) is compared relative to max|R| (no absolute floor:
+    networks at extreme scales are checked as tightly as networks at scale 1)."""
     bad = []
     kb = f32_bound(m["adm"], m["R"])
 
-    def mat(name, tol=TOL, scale=1.0):
+    def mat(name, tol, scale=1.0, floor=1.0):
         for a in range(n):
             for b in range(n):
-                if not close(o[name][a][b], m[name][a][b], tol, scale):
+                if not close(o[name][a][b], m[name][a][b], tol, scale, floor):
                     bad.append((name, (a, b), o[name][a][b], m[name][a][b]))
                     return
 
-    def vec(name, tol=TOL, scale=1.0):
+    def vec(name, tol, scale=1.0):
         for a in range(n):
-            if not close(o[name][a], m[name][a], tol, scale):
+            if not close(o[name][a], m[name][a], tol, scale, 0.0):
                 bad.append((name, a, o[name][a], m[name][a]))
                 return
 
     rs = max(abs(float(x)) for r in m["R"] for x in r)
-    mat("adm", 1e-12)
-    mat("lap", 1e-12)
-    mat("R", TOL, rs)
-    mat("er", TOL, rs)
+    ma = max(abs(float(x)) for r in m["adm"] for x in r)
+    atol = 1e-12 if tol == TOL else tol
+    mat("adm", atol, ma, 0.0)
+    mat("lap", atol, ma, 0.0)
+    mat("R", tol, rs, 0.0)
+    mat("er", tol, rs, 0.0)
     for name in ("ad", "anad", "lc", "ercc"):
         if name in m:
-            vec(name)
-    for name in ("gc", "avg", "diam"):
-        if name in m and not close(o[name], m[name], TOL, rs if name != "gc" else 1.0):
+            vec(name, tol)
+    if "gc" in m and not close(o["gc"], m["gc"], tol, 0.0, 0.0):
+        bad.append(("gc", None, o["gc"], m["gc"]))
+    for name in ("avg", "diam"):
+        if name in m and not close(o[name], m[name], tol, rs, 0.0):
             bad.append((name, None, o[name], m[name]))
     if "vcfb" in o and "vcfb" in m:
         for a in range(n):
@@ -397,66 +477,248 @@ def parse_net(ans):
 # histories
 # --------------------------------------------------------------------------
 
-def gen_history(c, rng, length):
-    """list of ops: ('U', res) | ('A',) | ('D',) | ('E', a, b) | ('C', a)"""
+QUERY_NAMES = {
+    "A": "average_effective_resistance", "D": "diameter_effective_resistance",
+    "E": "effective_resistance", "C": "effective_resistance_closeness_centrality",
+    "V": "vertex_current_flow_betweenness", "B": "edge_current_flow_betweenness",
+    "G": "admittive_degree", "N": "average_neighbors_admittive_degree",
+    "L": "local_admittive_clustering", "K": "global_admittive_clustering",
+    "R": "get_R", "M": "get_admittance", "P": "admittance_lapacian", "S": "__str__",
+    "UA": "update_admittance", "UR": "update_R"}
+
+UPDATE_HOWS = ["float64", "float64", "float32", "int", "list", "held-inplace", "caller-inplace",
+               "held-inplace", "caller-inplace"]
+
+
+def gen_history(c, rng, length, echo=True):
+    """list of ops: ('U', res, how) | (code,) | (code, i) | (code, i, j) with the codes of
+    QUERY_NAMES.  `how` says which array object carries the new resistances (see Live.apply)."""
     ops = []
     cur = c.res
+    n = c.n
+    if echo and rng.random() < 0.5 and length >= 3:
+        # "echo" history: queries, an update, the same queries again (anything a query stored
+        # before the update is asked for after it), possibly twice
+        qs = [op for op in gen_history(c, rng, max(1, (length - 1) // 2), echo=False)
+              if op[0] not in ("U", "UA", "UR")] or [("D",)]
+        ops = list(qs)
+        for _ in range(rng.choice([1, 1, 2])):
+            up = [op for op in gen_history(c, rng, 12, echo=False) if op[0] == "U"][:1] or \
+                [("U", draw_res(n, c.A, rng, "dyadic"), "float64")]
+            if up[0][2] in ("held-inplace", "caller-inplace") and rng.random() < 0.5:
+                up = [("U", draw_res(n, c.A, rng, "dyadic"), up[0][2])]
+            ops += up + qs
+        return ops
     for _ in range(length):
         k = rng.random()
-        if k < 0.3:
-            if rng.random() < 0.4:
+        if k < 0.27:
+            r = rng.random()
+            mx = max(v for row in cur for v in row)
+            mn = min(v for row in cur for v in row if v != 0)
+            if r < 0.3:
                 f = rng.choice([Fr(2), Fr(1, 2), Fr(3), Fr(10), Fr(1, 4)])
-                new = [[v * f for v in r] for r in cur]
+                new = [[v * f for v in r_] for r_ in cur]
+            elif r < 0.45:      # extreme but exact rescaling, kept inside 2^-50 .. 2^50
+                f = Fr(2) ** rng.choice([-40, -20, -9, 12, 30, 40])
+                if mx * f > 2 ** 50 or mn * f < Fr(1, 2 ** 50):
+                    f = 1 / f
+                if mx * f > 2 ** 50 or mn * f < Fr(1, 2 ** 50):
+                    f = Fr(1)
+                new = [[v * f for v in r_] for r_ in cur]
+            elif r < 0.52:      # the same values again
+                new = [list(r_) for r_ in cur]
             else:
-                new = draw_res(c.n, c.A, rng, rng.choice(["unit", "int", "dyadic"]))
+                new = draw_res(n, c.A, rng, rng.choice(["unit", "int", "dyadic", "pow2"]))
+            if mx * 10 > 2 ** 50 or mn < Fr(10, 2 ** 50):
+                new = draw_res(n, c.A, rng, "dyadic")
             cur = new
-            ops.append(("U", new))
-        elif k < 0.5:
+            ops.append(("U", new, rng.choice(UPDATE_HOWS)))
+        elif k < 0.37:
             ops.append(("A",))
-        elif k < 0.75:
+        elif k < 0.52:
             ops.append(("D",))
-        elif k < 0.9:
-            ops.append(("E", rng.randrange(c.n), rng.randrange(c.n)))
+        elif k < 0.60:
+            ops.append(("E", rng.randrange(n), rng.randrange(n)))
+        elif k < 0.65:
+            ops.append(("C", rng.randrange(n)))
+        elif k < 0.72:
+            ops.append(("V", rng.randrange(n) if rng.random() < 0.95 else n + rng.randrange(2)))
+        elif k < 0.77:
+            ops.append(("B", rng.randrange(n), rng.randrange(n)))
+        elif k < 0.86:
+            ops.append((rng.choice("GNL"), rng.randrange(n)))
+        elif k < 0.89:
+            ops.append(("K",))
+        elif k < 0.95:
+            ops.append((rng.choice("RMP"), rng.randrange(n), rng.randrange(n)))
+        elif k < 0.97:
+            ops.append(("S",))
         else:
-            ops.append(("C", rng.randrange(c.n)))
+            ops.append((rng.choice(["UA", "UR"]),))
     return ops
 
 
 def enc_op(op):
     if op[0] == "U":
         return "U=" + enc_mat(op[1])
-    if op[0] == "E":
-        return f"E={op[1]},{op[2]}"
-    if op[0] == "C":
-        return f"C={op[1]}"
-    return op[0]
+    if len(op) == 1:
+        return op[0]
+    return op[0] + "=" + ",".join(str(x) for x in op[1:])
 
 
 def show_op(op):
-    return ["update_resistances", [[enc_fr(v) for v in r] for r in op[1]]] if op[0] == "U" else \
-        {"A": ["average_effective_resistance"], "D": ["diameter_effective_resistance"],
-         "E": ["effective_resistance"] + list(op[1:]),
-         "C": ["effective_resistance_closeness_centrality"] + list(op[1:])}[op[0]]
-
-
-def apply_op(net, op):
     if op[0] == "U":
-        # the documented call: a resistance matrix (float array)
-        quiet(net.update_resistances, np.array([[float(v) for v in r] for r in op[1]]))
+        return ["update_resistances", [[enc_fr(v) for v in r] for r in op[1]], op[2]]
+    return [QUERY_NAMES[op[0]]] + list(op[1:])
+
+
+class Live:
+    """a real ResNetwork driven through a history, together with what the *caller* holds: the
+    array object it passed last (`arr`) and a private copy of the current values in the dtype
+    they were passed in (`cur`), from which the fresh twin is built."""
+
+    def __init__(self, c, RN):
+        self.c, self.RN, self.n = c, RN, c.n
+        self.arr = c.array()
+        self.cur = self.arr.copy()
+        self.net = c.build_from(RN, self.arr)
+        self.kb = None
+
+    @property
+    def lowprec(self):
+        return self.cur.dtype == np.float32
+
+    @property
+    def mag(self):
+        return float(np.abs(self.cur.astype(float)).max())
+
+    def twin(self):
+        return self.c.build_from(self.RN, self.cur.copy())
+
+    @staticmethod
+    def _fits(dtype, new):
+        """can an array of `dtype` hold the values `new` exactly"""
+        if np.issubdtype(dtype, np.integer):
+            return all(v.denominator == 1 and abs(v) < 2 ** 62 for r in new for v in r)
+        if dtype == np.float32:
+            return all(Fr(float(np.float32(float(v)))) == v for r in new for v in r)
+        return dtype == np.float64
+
+    def update(self, new, how):
+        net = self.net
+        f64 = np.array([[float(v) for v in r] for r in new], dtype=float)
+        target = None
+        if how == "held-inplace":          # edit the array the network holds, hand it back
+            target = net.resistances
+        elif how == "caller-inplace":      # edit the array passed last time, pass it again
+            target = self.arr
+        if target is not None and isinstance(target, np.ndarray) and target.shape == f64.shape \
+                and self._fits(target.dtype, new):
+            target[...] = f64
+            arg = target
+        elif how == "float32" and self._fits(np.dtype(np.float32), new):
+            arg = f64.astype(np.float32)
+        elif how == "int" and self._fits(np.dtype(np.int64), new):
+            arg = np.array([[int(v) for v in r] for r in new], dtype=np.int64)
+        elif how == "list":
+            arg = f64.tolist()
+        else:
+            arg = f64
+        quiet(net.update_resistances, arg)
+        if isinstance(arg, np.ndarray):
+            self.arr = arg
+            self.cur = arg.copy()
+        else:
+            self.cur = f64.copy()
+
+    def apply(self, op):
+        """perform one call on `self.net`; the returned number (or None)"""
+        return apply_op(self.net, op, self)
+
+
+def apply_op(net, op, live=None):
+    code = op[0]
+    if code == "U":
+        live.update(op[1], op[2])
         return None
-    if op[0] == "A":
+    if code in ("UA", "UR"):
+        quiet(net.update_admittance if code == "UA" else net.update_R)
+        return None
+    if code == "A":
         return float(quiet(net.average_effective_resistance))
-    if op[0] == "D":
+    if code == "D":
         return float(quiet(net.diameter_effective_resistance))
-    if op[0] == "E":
+    if code == "E":
         return float(quiet(net.effective_resistance, op[1], op[2]))
-    return float(quiet(net.effective_resistance_closeness_centrality, op[1]))
+    if code == "C":
+        return float(quiet(net.effective_resistance_closeness_centrality, op[1]))
+    if code == "V":
+        try:
+            return float(quiet(net.vertex_current_flow_betweenness, op[1]))
+        except IndexError:
+            return None
+    if code == "B":
+        return float(quiet(net.edge_current_flow_betweenness)[op[1], op[2]])
+    if code == "G":
+        return float(quiet(net.admittive_degree)[op[1]])
+    if code == "N":
+        return float(quiet(net.average_neighbors_admittive_degree)[op[1]])
+    if code == "L":
+        return float(quiet(net.local_admittive_clustering)[op[1]])
+    if code == "K":
+        return float(quiet(net.global_admittive_clustering))
+    if code == "R":
+        return float(quiet(net.get_R)[op[1], op[2]])
+    if code == "M":
+        return float(quiet(net.get_admittance)[op[1], op[2]])
+    if code == "P":
+        return float(quiet(net.admittance_lapacian)[op[1], op[2]])
+    if code == "S":
+        return float(str(net).rsplit("Average resistance: ", 1)[1])
+    raise ValueError(op)
 
 
-def fresh_value(c, RN, res, op):
-    """the same query on a freshly constructed object with the current resistances"""
-    twin = c.build(RN, res)
-    return apply_op(twin, op)
+def op_close(op, x, q, n, mag, lowprec, kb):
+    """is the implementation's value `x` the exact / fresh value `q`, within the accuracy the
+    float pipeline can deliver at the current scale (`mag` = largest current resistance)"""
+    if (x is None) != (q is None):
+        return False
+    if x is None:
+        return True
+    q = float(q)
+    if math.isnan(x) or math.isinf(x):
+        return False
+    tol = 3e-6 if lowprec else TOL
+    code = op[0]
+    if code in ("A", "D", "E", "R"):          # pinv pipeline: relative to max|R| <~ n * mag
+        return abs(x - q) <= tol * n * mag
+    if code == "C":                            # (N-1) / sum of ER
+        return x > 0 and abs((n - 1) / x - (n - 1) / q) <= tol * n * n * mag
+    if code in ("V", "B"):                     # float32 copies inside the C sums
+        return abs(x - q) <= kb
+    if code in ("M", "P"):
+        return abs(x - q) <= (tol if lowprec else 1e-12) * max(abs(q), 1.0 / mag)
+    if code == "S":
+        return abs(x - q) <= (1e-5 if lowprec else 1e-12) * abs(q)
+    return abs(x - q) <= tol * abs(q)          # sums / ratios of positive terms
+
+
+def play(c, RN, ops):
+    """run a history on a new object; for every step (value, fresh-twin value, mag, lowprec,
+    bound for the float32 betweenness sums at that step)"""
+    live = Live(c, RN)
+    rows = []
+    for op in ops:
+        x = live.apply(op)
+        if op[0] in ("U", "UA", "UR"):
+            rows.append((x, None, live.mag, live.lowprec, None))
+        else:
+            kb = None
+            if op[0] in ("V", "B"):
+                kb = f32_bound(quiet(live.net.get_admittance).tolist(),
+                               quiet(live.net.get_R).tolist())
+            rows.append((x, apply_op(live.twin(), op), live.mag, live.lowprec, kb))
+    return live, rows
 
 
 # --------------------------------------------------------------------------
@@ -496,7 +758,7 @@ def run(ctx):
     # A. implementation vs Lean model vs exact oracle, all observables
     # ------------------------------------------------------------------
     reqs = [f"net {c.n} {enc_adj(c.A)} {enc_mat(c.res)}" for c in cases]
-    model = common.driver(ctx.pid, reqs)
+    model = pdriver(ctx.pid, reqs)
     bad = []
     nobs = 0
     selfbad = []
@@ -523,7 +785,7 @@ def run(ctx):
                      f"ResNetwork raised {type(ex).__name__}: {ex}", c.replay())
             continue
         kept.append((c, m, o, net))
-        d = diff_obs(o, m, c.n)
+        d = diff_obs(o, m, c.n, c.tol)
         nobs += 13
         if d:
             bad.append((c, d))
@@ -558,7 +820,7 @@ def run(ctx):
         Is, It = rng.choice([(1, 1), (2, 1), (1, 0), (0.5, 3), (0, 1)])
         kernel_case(K, n, Is, It, a32, r32, kreqs, kimpl, kmeta, "random-asymmetric")
         ctx.count("kernel:random-asymmetric-dyadic")
-    kans = common.driver(ctx.pid, kreqs)
+    kans = pdriver(ctx.pid, kreqs)
     kbad = []
     for req, got, ans, meta in zip(kreqs, kimpl, kans, kmeta):
         exact = p_vec(ans) if meta[0] == "vcfb" else [x for r in p_mat(ans) for x in r]
@@ -595,59 +857,159 @@ def run(ctx):
     # ------------------------------------------------------------------
     hcases = []
     pool = [c for c in cases if 3 <= c.n <= 7]
-    for _ in range(80 if quick else 800):
+    for _ in range(90 if quick else 900):
         c = rng.choice(pool)
-        hcases.append((c, gen_history(c, rng, rng.randrange(2, 7 if quick else 12))))
+        hcases.append((c, gen_history(c, rng, rng.randrange(2, 9 if quick else 14))))
     hreqs = [" ".join(["hist", str(c.n), enc_adj(c.A), enc_mat(c.res)] + [enc_op(op) for op in ops])
              for c, ops in hcases]
-    hans = common.driver(ctx.pid, hreqs)
+    hans = pdriver(ctx.pid, hreqs)
     hbad = []
+    nsteps = 0
     for (c, ops), ans in zip(hcases, hans):
         ctx.count("history:len=%d" % len(ops))
         ctx.count("history:updates=%d" % sum(op[0] == "U" for op in ops))
-        ctx.case(("hist", c.canon(), [enc_op(op) for op in ops]), True)
+        for op in ops:
+            ctx.count("history-op:" + (("update:" + op[2]) if op[0] == "U" else QUERY_NAMES[op[0]]))
+        ctx.case(("hist", c.canon(), [enc_op(op) + (op[2] if op[0] == "U" else "") for op in ops]),
+                 True)
         exact = [p_fr(t) for t in ans.split(",")]
         try:
-            net = c.build(RN)
-            outs = [apply_op(net, op) for op in ops]
+            live, rows = play(c, RN, ops)
         except Exception as ex:  # noqa
             ctx.fail({"kind": "exception", "where": "history", "error": type(ex).__name__},
                      f"history raised {type(ex).__name__}: {ex}",
                      c.replay(history=[show_op(op) for op in ops]))
             continue
-        mism = [k for k, (x, q) in enumerate(zip(outs, exact))
-                if (x is None) != (q is None) or (x is not None and not close(x, q, TOL, 100.0))]
-        if mism:
-            hbad.append((c, ops, mism[0], outs[mism[0]], exact[mism[0]]))
+        nsteps += len(ops)
+        for k, (op, (x, fv, mag, low, kb), q) in enumerate(zip(ops, rows, exact)):
+            if not op_close(op, x, q, c.n, mag, low, kb):
+                hbad.append((c, ops, k, x, q))
+                break
         # oracle: every returned value equals the value of a fresh object
-        cur = c.res
-        for k, op in enumerate(ops):
-            if op[0] == "U":
-                cur = op[1]
+        for k, (op, (x, fv, mag, low, kb)) in enumerate(zip(ops, rows)):
+            if op[0] in ("U", "UA", "UR"):
                 continue
-            fv = fresh_value(c, RN, cur, op)
-            if not (abs(outs[k] - fv) <= TOL * max(1.0, abs(fv))):
+            if not op_close(op, x, fv, c.n, mag, low, kb):
                 hist = shrink_history(c, RN, ops[:k + 1])
                 stale = any(o[0] == "U" for o in hist[:-1])
+                hows = sorted({o[2] for o in hist[:-1] if o[0] == "U"})
                 ctx.fail({"kind": "history", "query": show_op(op)[0],
                           "after": "update_resistances" if stale else "queries"},
                          f"{show_op(op)[0]} after {'update_resistances' if stale else 'queries'} "
-                         f"returns {outs[k]}, a fresh ResNetwork with the current resistances "
-                         f"returns {fv}",
-                         c.replay(history=[show_op(o) for o in hist], observed=outs[k],
-                                  expected=fv))
+                         f"returns {x}, a fresh ResNetwork with the current resistances "
+                         f"returns {fv}" + (f" (array passed: {', '.join(hows)})" if hows else ""),
+                         c.replay(history=[show_op(o) for o in hist], observed=x, expected=fv))
                 break
-    ctx.obligation(f"correspondence: Lean state machine (update/average/diameter/effRes/ercc) == "
-                   f"ResNetwork on {len(hcases)} histories", "correspondence", not hbad,
+    ctx.obligation(f"correspondence: Lean state machine (update_resistances / update_admittance / "
+                   f"update_R and 14 queries) == ResNetwork on {len(hcases)} histories, "
+                   f"{nsteps} calls", "correspondence", not hbad,
                    "\n".join(f"op#{k} {show_op(ops[k])[0]} impl={x} model={q} :: A={enc_adj(c.A)} "
-                             f"history={[enc_op(o)[:40] for o in ops]}"
+                             f"dtype={c.dtype} history={[enc_op(o)[:40] for o in ops]}"
                              for c, ops, k, x, q in hbad[:5]))
+    ctx.extra["history_calls_compared"] = nsteps
 
     # ------------------------------------------------------------------
     # D. complex impedances (implementation-only oracle)
     # ------------------------------------------------------------------
     complex_stream(ctx, RN, rng, 40 if quick else 400)
+    wrapper_stream(ctx, RN, rng)
+    disconnected_stream(ctx, rng, 40 if quick else 400)
     stress_stream(ctx, RN, rng, 12 if quick else 120)
+
+
+def wrapper_stream(ctx, RN, rng):
+    """the public factories: SmallTestNetwork() against model and oracle like any other network,
+    SmallComplexNetwork() through the complex oracle"""
+    net = quiet(RN.SmallTestNetwork)
+    A = [[int(v) for v in r] for r in np.asarray(net.adjacency).tolist()]
+    res = [[Fr(int(v)) for v in r] for r in np.asarray(net.resistances).tolist()]
+    n = len(A)
+    c = Case(n, A, res, "int", "SmallTestNetwork()")
+    ctx.count("wrapper:SmallTestNetwork")
+    ctx.case(("wrapper", "SmallTestNetwork"), True, {"factory": "ResNetwork.SmallTestNetwork()"})
+    m = parse_net(common.driver(ctx.pid, [f"net {n} {enc_adj(A)} {enc_mat(res)}"])[0])
+    o = observe(net, n)
+    d = diff_obs(o, m, n) if m else [("model refuses", None, None, None)]
+    ctx.obligation("correspondence: Lean Circuit model == ResNetwork.SmallTestNetwork() "
+                   "(13 observables)", "correspondence", not d, str(d[:3]))
+    if d:
+        # settled on the real code: the factory against a network constructed from its own data
+        twin = c.build(RN)
+        o2 = observe(twin, n)
+        if any(abs(o[k] - o2[k]) > TOL * max(1.0, abs(o2[k])) for k in ("avg", "diam", "gc")):
+            ctx.fail({"kind": "wrapper", "factory": "SmallTestNetwork"},
+                     "SmallTestNetwork() differs from ResNetwork(resistances, adjacency) built "
+                     "from its own data", c.replay())
+    oracle_case(ctx, c, o, RN, rng)
+    # histories start from the factory object too
+    ops = gen_history(c, rng, 8)
+    live = Live(c, RN)
+    live.net = quiet(RN.SmallTestNetwork)
+    live.arr = live.net.resistances
+    live.cur = np.array(live.arr).copy()
+    for op in ops:
+        try:
+            x = live.apply(op)
+        except Exception as ex:  # noqa
+            ctx.fail({"kind": "exception", "where": "history", "error": type(ex).__name__},
+                     f"history on SmallTestNetwork() raised {type(ex).__name__}: {ex}",
+                     c.replay(history=[show_op(o_) for o_ in ops]))
+            break
+        if op[0] in ("U", "UA", "UR"):
+            continue
+        kb = f32_bound(quiet(live.net.get_admittance).tolist(), quiet(live.net.get_R).tolist())
+        fv = apply_op(live.twin(), op)
+        if not op_close(op, x, fv, n, live.mag, live.lowprec, kb):
+            ctx.fail({"kind": "history", "query": show_op(op)[0], "after": "SmallTestNetwork()"},
+                     f"{show_op(op)[0]} in a history on SmallTestNetwork() returns {x}, a fresh "
+                     f"ResNetwork with the current resistances returns {fv}",
+                     c.replay(history=[show_op(o_) for o_ in ops], observed=x, expected=fv))
+            break
+    netc = quiet(RN.SmallComplexNetwork)
+    Z = np.array(netc.resistances, dtype=complex)
+    Ac = [[int(v) for v in r] for r in np.asarray(netc.adjacency).tolist()]
+    ctx.count("wrapper:SmallComplexNetwork")
+    if not netc.flagComplex or Z.shape != (5, 5):
+        ctx.fail({"kind": "wrapper", "factory": "SmallComplexNetwork"},
+                 "SmallComplexNetwork() is not a complex 5-node network", {})
+    complex_check(ctx, RN, rng, Ac, Z, "SmallComplexNetwork()",
+                  make=lambda: quiet(RN.SmallComplexNetwork))
+
+
+def disconnected_stream(ctx, rng, count):
+    """the model's connectivity test (hypothesis of the theorems, `bfs_connected_sound`) against
+    the harness's own search, on disconnected and connected graphs incl. isolated nodes"""
+    reqs, want = [], []
+    for _ in range(count):
+        n = rng.randrange(2, 8)
+        k = rng.randrange(1, n)                       # split point: two node groups
+        perm = list(range(n))
+        rng.shuffle(perm)
+        e = []
+        for grp in (perm[:k], perm[k:]):
+            for a in range(1, len(grp)):
+                if rng.random() < 0.9:
+                    e.append((grp[a], grp[rng.randrange(a)]))
+            for a, b in itertools.combinations(grp, 2):
+                if rng.random() < 0.2:
+                    e.append((a, b))
+        if rng.random() < 0.3:
+            e.append((perm[0], perm[-1]))             # a bridge: possibly connected again
+        A = graph_from_edges(n, e)
+        res = draw_res(n, A, rng, "int")
+        reqs.append(f"net {n} {enc_adj(A)} {enc_mat(res)}")
+        want.append(is_connected(n, A))
+        ctx.count("connectivity:" + ("connected" if want[-1] else "disconnected"))
+        ctx.case(("conn", enc_adj(A)), True)
+    ans = common.driver(ctx.pid, reqs)
+    bad = []
+    for r, a, w in zip(reqs, ans, want):
+        got = ("conn=1" in a) and not a.startswith("undefined")
+        if got != w or (not w and "conn=0" not in a):
+            bad.append((r, a[:60], w))
+    ctx.obligation(f"correspondence: the model accepts exactly the connected networks "
+                   f"({len(reqs)} graphs, {sum(not w for w in want)} disconnected)",
+                   "correspondence", not bad, "\n".join(map(str, bad[:4])))
 
 
 def kernel_case(K, n, Is, It, a32, r32, kreqs, kimpl, kmeta, tag):
@@ -669,15 +1031,9 @@ def shrink_history(c, RN, ops):
 
     def still(pre):
         try:
-            net = c.build(RN)
-            cur = c.res
-            for op in pre:
-                apply_op(net, op)
-                if op[0] == "U":
-                    cur = op[1]
-            x = apply_op(net, last)
-            fv = fresh_value(c, RN, cur, last)
-            return not (abs(x - fv) <= TOL * max(1.0, abs(fv)))
+            live, rows = play(c, RN, list(pre) + [last])
+            x, fv, mag, low, kb = rows[-1]
+            return not op_close(last, x, fv, c.n, mag, low, kb)
         except Exception:  # noqa
             return False
     return common.shrink_list(ops[:-1], still) + [last]
@@ -691,7 +1047,8 @@ def oracle_case(ctx, c, o, RN, rng):
     n = c.n
     ex = oracle_er(c)
     adm = oracle_adm(c)
-    rs = max(1.0, max(float(x) for r in ex for x in r))
+    rs = max(float(x) for r in ex for x in r)      # largest effective resistance (> 0)
+    tol = c.tol
 
     def fail(law, what, **extra):
         ctx.fail({"kind": "law", "law": law}, what, c.replay(**extra))
@@ -700,12 +1057,28 @@ def oracle_case(ctx, c, o, RN, rng):
     # exact values
     for a in range(n):
         for b in range(n):
-            if not close(er[a][b], ex[a][b], TOL, rs):
+            if not close(er[a][b], ex[a][b], tol, rs, 0.0):
                 fail("effective_resistance=exact-circuit-solve",
                      f"effective_resistance({a},{b}) = {er[a][b]}, exact circuit solve gives "
                      f"{ex[a][b]} = {float(ex[a][b])}", a=a, b=b, observed=er[a][b],
                      expected=enc_fr(ex[a][b]))
                 return
+    # closeness, average and diameter against their definitions on the exact values
+    for a in range(n):
+        cc = Fr(n - 1) / sum(ex[a])
+        if not close(o["ercc"][a], cc, 4 * tol, 0.0, 0.0):
+            fail("closeness=(N-1)/sum-of-ER",
+                 f"effective_resistance_closeness_centrality({a}) = {o['ercc'][a]}, definition on "
+                 f"the exact effective resistances gives {float(cc)}", a=a, observed=o["ercc"][a],
+                 expected=enc_fr(cc))
+            break
+    avg = 2 * sum(ex[i][j] for i in range(n) for j in range(i)) / Fr(n * (n - 1))
+    if not close(o["avg"], avg, tol, rs, 0.0):
+        fail("average=mean-over-pairs", f"average_effective_resistance() = {o['avg']}, mean of "
+             f"the exact values over all pairs is {float(avg)}", observed=o["avg"])
+    if not close(o["diam"], rs, tol, rs, 0.0):
+        fail("diameter=max-over-pairs", f"diameter_effective_resistance() = {o['diam']}, largest "
+             f"exact value is {rs}", observed=o["diam"])
     # metric laws on the implementation's own output
     for a in range(n):
         if er[a][a] != 0:
@@ -714,23 +1087,23 @@ def oracle_case(ctx, c, o, RN, rng):
             if a != b and not er[a][b] > 0:
                 fail("positive", f"effective_resistance({a},{b}) = {er[a][b]} is not positive",
                      a=a, b=b)
-            if abs(er[a][b] - er[b][a]) > TOL * rs:
+            if abs(er[a][b] - er[b][a]) > tol * rs:
                 fail("symmetric", f"effective_resistance({a},{b}) = {er[a][b]} but ({b},{a}) = "
                      f"{er[b][a]}", a=a, b=b)
             for k in range(n):
-                if er[a][b] > er[a][k] + er[k][b] + TOL * rs:
+                if er[a][b] > er[a][k] + er[k][b] + tol * rs:
                     fail("triangle", f"ER({a},{b}) = {er[a][b]} > ER({a},{k}) + ER({k},{b}) = "
                          f"{er[a][k] + er[k][b]}", a=a, b=b, k=k)
     # never exceeds the resistance of any connecting path (= the cheapest one)
     D = shortest_paths(c)
     for a in range(n):
         for b in range(n):
-            if er[a][b] > float(D[a][b]) + TOL * rs:
+            if er[a][b] > float(D[a][b]) + tol * rs:
                 fail("path-bound", f"ER({a},{b}) = {er[a][b]} exceeds the path resistance "
                      f"{float(D[a][b])}", a=a, b=b)
     # Foster
     fo = sum(er[i][j] / float(c.res[i][j]) for i in range(n) for j in range(i) if c.A[i][j])
-    if abs(fo - (n - 1)) > 1e-6 * n:
+    if abs(fo - (n - 1)) > max(1e-6, 4 * tol) * n:
         fail("foster", f"sum over links of ER*conductance = {fo}, expected N-1 = {n - 1}",
              observed=fo)
     # generalised-inverse identities of get_R() assumed by the theorems
@@ -744,26 +1117,26 @@ def oracle_case(ctx, c, o, RN, rng):
     # series / parallel constructions
     if c.tag == "path":
         tot = sum(c.res[i][i + 1] for i in range(n - 1))
-        if not close(er[0][n - 1], tot, TOL, rs):
+        if not close(er[0][n - 1], tot, tol, rs, 0.0):
             fail("series", f"series chain: ER(0,{n - 1}) = {er[0][n - 1]}, sum of resistances "
                  f"{float(tot)}")
     if c.tag in ("bundle", "bundle+direct"):
         g = sum(1 / (c.res[0][k] + c.res[k][1]) for k in range(2, n))
         if c.A[0][1]:
             g += 1 / c.res[0][1]
-        if not close(er[0][1], 1 / g, TOL, rs):
+        if not close(er[0][1], 1 / g, tol, rs, 0.0):
             fail("parallel", f"parallel branches: ER(0,1) = {er[0][1]}, parallel law gives "
                  f"{float(1 / g)}")
     # defining sums: admittive degree / clustering exactly, betweenness on own R
     deg = [sum(c.A[i]) for i in range(n)]
     for i in range(n):
         ad = sum(adm[i])
-        if not close(o["ad"][i], ad):
+        if not close(o["ad"][i], ad, tol, 0.0, 0.0):
             fail("admittive_degree=sum", f"admittive_degree()[{i}] = {o['ad'][i]}, defining sum "
                  f"{float(ad)}", i=i)
         tri = sum(adm[i][j] * adm[i][k] * adm[j][k] for j in range(n) for k in range(n))
         lc = Fr(0) if deg[i] == 1 else tri / (ad * (deg[i] - 1))
-        if not close(o["lc"][i], lc):
+        if not close(o["lc"][i], lc, tol, 0.0, 0.0):
             fail("local_admittive_clustering=sum", f"local_admittive_clustering()[{i}] = "
                  f"{o['lc'][i]}, defining sum {float(lc)}", i=i)
     kb = f32_bound(o["adm"], o["R"])
@@ -777,35 +1150,46 @@ def oracle_case(ctx, c, o, RN, rng):
         if np.abs(np.array(o["ecfb"]) - de).max() > kb:
             fail("ecfb=sum", "edge_current_flow_betweenness() differs from its defining sum "
                  f"by {np.abs(np.array(o['ecfb']) - de).max()}")
-    # scaling of all resistances by a random factor: new object and update of the old one
+    # scaling of all resistances by a random factor (moderate, or an extreme but exact power of
+    # two): a new object, and update_resistances on the old one after its store was filled
     if rng.random() < 0.5:
-        f = rng.choice([Fr(2), Fr(1, 2), Fr(3), Fr(1, 4), Fr(10), Fr(5, 8)])
+        f = rng.choice([Fr(2), Fr(1, 2), Fr(3), Fr(1, 4), Fr(10), Fr(5, 8),
+                        Fr(2) ** 20, Fr(2) ** -20, Fr(2) ** 40, Fr(2) ** -40])
+        if c.kind == "pow2" and (f > 2 ** 10 or f < Fr(1, 2 ** 10)):
+            f = Fr(4)                     # already at an extreme scale: stay inside float32 range
         res2 = [[v * f for v in r] for r in c.res]
         for how in ("new", "update"):
             if how == "new":
-                c2 = Case(n, c.A, res2, "dyadic", c.tag, c.adj_from_res)
+                c2 = Case(n, c.A, res2, "dyadic", c.tag, c.adj_from_res, c.dtype, c.opts)
                 net2 = c2.build(RN)
             else:
                 net2 = c.build(RN)
-                quiet(net2.average_effective_resistance)
-                quiet(net2.update_resistances, np.array([[float(v) for v in r] for r in res2]))
+                observe(net2, n)          # every query once: whatever is stored is now filled
+                quiet(net2.update_resistances, c.array(res2) if c.dtype == "float32"
+                      else np.array([[float(v) for v in r] for r in res2]))
             o2 = observe(net2, n)
             ff = float(f)
-            ok = all(abs(o2["er"][a][b] - ff * er[a][b]) <= TOL * rs * max(1.0, ff)
+            ok = all(abs(o2["er"][a][b] - ff * er[a][b]) <= tol * rs * ff
                      for a in range(n) for b in range(n))
-            ok &= abs(o2["diam"] - ff * o["diam"]) <= TOL * rs * max(1.0, ff)
-            ok &= abs(o2["avg"] - ff * o["avg"]) <= TOL * rs * max(1.0, ff)
+            ok &= abs(o2["diam"] - ff * o["diam"]) <= tol * rs * ff
+            ok &= abs(o2["avg"] - ff * o["avg"]) <= tol * rs * ff
             ok &= all(abs(o2["vcfb"][i] - o["vcfb"][i]) <= 2 * kb for i in range(n))
-            ok &= all(abs(o2["ad"][i] - o["ad"][i] / ff) <= TOL * max(1.0, o["ad"][i] / ff)
+            ok &= np.abs(np.array(o2["ecfb"]) - np.array(o["ecfb"])).max() <= 2 * kb
+            ok &= all(abs(o2["ad"][i] - o["ad"][i] / ff) <= tol * o["ad"][i] / ff
+                      for i in range(n))
+            ok &= all(abs(o2["lc"][i] - o["lc"][i] / ff ** 2) <= 2 * tol * abs(o["lc"][i]) / ff ** 2
+                      for i in range(n))
+            ok &= all(abs(o2["ercc"][i] - o["ercc"][i] / ff) <= 4 * tol * o["ercc"][i] / ff
                       for i in range(n))
             if not ok:
                 ctx.fail({"kind": "law", "law": "scaling", "how": how},
                          f"multiplying all resistances by {f} ({how}) does not scale effective "
                          "resistances / diameter / average linearly (betweenness invariant, "
-                         "admittive degree inversely)",
+                         "admittive degree and closeness inversely, clustering with the inverse square)",
                          c.replay(factor=enc_fr(f), how=how, er_before=er, er_after=o2["er"],
                                   diameter_before=o["diam"], diameter_after=o2["diam"]))
         ctx.count("law:scaling-checked")
+        ctx.count("law:scaling-factor:" + ("extreme-pow2" if f > 100 or f < Fr(1, 100) else "moderate"))
 
 
 # --------------------------------------------------------------------------
@@ -928,14 +1312,30 @@ def complex_stream(ctx, RN, rng, count):
             for j in range(i):
                 if A[i][j]:
                     Z[i, j] = Z[j, i] = complex(rng.randrange(1, 17) / 2, rng.randrange(-16, 17) / 2)
+        if rng.random() < 0.25:        # extreme but exact common scale
+            Z = Z * 2.0 ** rng.choice([-40, -20, 20, 40])
+        zdt = rng.choice([complex, complex, np.complex64])
+        complex_check(ctx, RN, rng, A, Z.astype(zdt), kind)
+
+
+def complex_check(ctx, RN, rng, A, Z, kind, make=None):
+    """one complex-impedance network (built by `make()` if given, e.g. a public factory)"""
+    for _once in (0,):
+        n = len(A)
+        low = Z.dtype == np.complex64
+        lf = 300.0 if low else 1.0        # complex64 arrays: single-precision admittances
         ctx.count("complex:" + kind)
-        ctx.case(("complex", enc_adj(A), Z.tolist().__repr__()), n >= 3)
-        rep = {"n": n, "adjacency": A, "impedances": [[str(z) for z in r] for r in Z.tolist()]}
+        ctx.count("complex-dtype:" + str(Z.dtype))
+        ctx.case(("complex", enc_adj(A), Z.tolist().__repr__(), str(Z.dtype)), n >= 3)
+        rep = {"n": n, "adjacency": A, "impedances": [[str(z) for z in r] for r in Z.tolist()],
+               "dtype": str(Z.dtype)}
 
         def fail(law, what, **extra):
             ctx.fail({"kind": "complex", "law": law}, what, dict(rep, **extra))
+        Z0 = Z
+        Z = Z.astype(complex)
         try:
-            net = quiet(RN, Z.copy(), adjacency=np.array(A, dtype=np.int8))
+            net = make() if make else quiet(RN, Z0.copy(), adjacency=np.array(A, dtype=np.int8))
             er = np.array([[quiet(net.effective_resistance, a, b) for b in range(n)]
                            for a in range(n)])
             ad = quiet(net.admittive_degree)
@@ -948,32 +1348,33 @@ def complex_stream(ctx, RN, rng, count):
         G = np.zeros((n, n), dtype=complex)
         G[1:, 1:] = np.linalg.inv(L[1:, 1:])
         ex = np.array([[G[a, a] + G[b, b] - G[a, b] - G[b, a] for b in range(n)] for a in range(n)])
-        sc = max(1.0, np.abs(ex).max())
-        if np.abs(er - ex).max() > 1e-6 * sc:
+        sc = np.abs(ex).max()
+        ys = np.abs(Y).max()
+        if np.abs(er - ex).max() > 1e-6 * lf * sc:
             a, b = np.unravel_index(np.abs(er - ex).argmax(), er.shape)
             fail("effective_impedance=direct-solve",
                  f"effective_resistance({a},{b}) = {er[a, b]}, direct solve gives {ex[a, b]}")
             continue
-        if np.abs(er - er.T).max() > 1e-7 * sc or np.abs(np.diag(er)).max() != 0:
+        if np.abs(er - er.T).max() > 1e-7 * lf * sc or np.abs(np.diag(er)).max() != 0:
             fail("symmetric/zero", "complex effective resistance not symmetric / not 0 on diagonal")
         fo = sum(er[i, j] * Y[i, j] for i in range(n) for j in range(i) if A[i][j])
-        if abs(fo - (n - 1)) > 1e-6 * n:
+        if abs(fo - (n - 1)) > 1e-6 * lf * n:
             fail("foster", f"sum ER*admittance over links = {fo}, expected {n - 1}")
         if kind == "path":
             tot = sum(Z[i, i + 1] for i in range(n - 1))
-            if abs(er[0, n - 1] - tot) > 1e-7 * sc:
+            if abs(er[0, n - 1] - tot) > 1e-7 * lf * sc:
                 fail("series", f"ER(0,{n - 1}) = {er[0, n - 1]}, series law {tot}")
         if kind == "bundle+direct":
             g = 1 / Z[0, 1] + sum(1 / (Z[0, k] + Z[k, 1]) for k in range(2, n))
-            if abs(er[0, 1] - 1 / g) > 1e-7 * sc:
+            if abs(er[0, 1] - 1 / g) > 1e-7 * lf * sc:
                 fail("parallel", f"ER(0,1) = {er[0, 1]}, parallel law {1 / g}")
-        if np.abs(ad - Y.sum(axis=0)).max() > 1e-9 * max(1.0, np.abs(Y).max()):
+        if np.abs(ad - Y.sum(axis=0)).max() > 1e-9 * lf * ys:
             fail("admittive_degree=sum", "complex admittive degree differs from its defining sum")
         deg = np.array(A).sum(axis=1)
         for i in range(n):
             tri = sum(Y[i, j] * Y[i, k] * Y[j, k] for j in range(n) for k in range(n))
             e = 0 if deg[i] == 1 else tri / (Y[i].sum() * (deg[i] - 1))
-            if abs(lc[i] - e) > 1e-9 * max(1.0, abs(e)):
+            if abs(lc[i] - e) > 1e-9 * lf * max(abs(e), ys * ys / n):
                 fail("local_admittive_clustering=sum",
                      f"complex local_admittive_clustering()[{i}] = {lc[i]}, defining sum {e}")
         # scaling by a complex factor through update_resistances, after the store was filled
@@ -982,11 +1383,11 @@ def complex_stream(ctx, RN, rng, count):
         quiet(net.update_resistances, Z * f)
         er2 = np.array([[quiet(net.effective_resistance, a, b) for b in range(n)]
                         for a in range(n)])
-        if np.abs(er2 - f * er).max() > 1e-6 * sc * abs(f):
+        if np.abs(er2 - f * er).max() > 1e-6 * lf * sc * abs(f):
             fail("scaling", f"multiplying all impedances by {f} does not scale the effective "
                  "impedance")
         avg = quiet(net.average_effective_resistance)
         twin = quiet(RN, Z * f, adjacency=np.array(A, dtype=np.int8))
-        if abs(avg - quiet(twin.average_effective_resistance)) > 1e-6 * sc * abs(f):
+        if abs(avg - quiet(twin.average_effective_resistance)) > 1e-6 * lf * sc * abs(f):
             fail("history", "average_effective_resistance after update_resistances differs "
                  "from a fresh object")
